@@ -19,7 +19,8 @@ LEVEL = 'exploration'
 LEVEL_TEXT = ('Runtime check on the real code: (1) Linen modules whose params / mutable variables are boxed with with_partitioning / '
               'with_logical_partitioning (ranks 1-3, every stacking axis k in [-(rank+1), rank]) are initialised and applied under nn.scan, '
               'nn.vmap, scan-inside-vmap and vmap-inside-scan with metadata_params, NNX modules with `sharding` metadata are created and run '
-              'under nnx.vmap / nnx.scan (and both nestings) with transform_metadata and StateAxes; every returned leaf, every variable the '
+              'under nnx.vmap / nnx.scan (and both nestings) with transform_metadata and StateAxes or plain int axes, and the deprecated '
+              'partitioning.scan_with_axes / vmap_with_axes API is run for k >= 0; every returned leaf, every variable the '
               'body sees and every add_axis/remove_axis hook event is compared with a list-insert reference and with a size-based alignment '
               'oracle; the same programs are run with unboxed variables and must agree. (2) get_partition_spec of both APIs on all name '
               'tuples of length <= 3. (3) logical_to_mesh_axes on ALL rule lists of length <= 4 over 3 logical names x (3 mesh axes + None) '
@@ -35,7 +36,8 @@ RULE = ('transform cases: rank r in 1..3 x stacking axis k in [-(r+1), r] (negat
         'thorough); names are drawn from {a,b,c,d,None} without repeats and every name owns a unique dimension size, partition names own '
         'the stacking lengths; an unboxed variable of the same rank rides along in the same collection. Partial-rank names only with '
         'k >= 0 on single-level cases (weaker oracle: names[k] == p, order, size alignment; negative k with partial names is ambiguous and '
-        'not generated). logical_to_mesh_axes: duplicate logical names inside one logical-axis tuple are outside its domain (it rejects them; '
+        'not generated). The deprecated partitioning.*_with_axes API is exercised for k >= 0 only (LEGACY_NEGATIVE_AXES: its insert still uses '
+        'Python semantics for negative positions; reported, outside the property text which speaks of boxed variables). logical_to_mesh_axes: duplicate logical names inside one logical-axis tuple are outside its domain (it rejects them; '
         'a ValueError is accepted, a returned spec must still be reuse-free); tuple-valued mesh targets are sampled, not enumerated; '
         'RulesFallback modes are decided only where the docstring is unambiguous (a name no rule mentions / every name assigned). '
         'distinct = distinct case descriptor; non-trivial = at least one boxed variable / one rule / one name.')
@@ -456,7 +458,7 @@ def run_linen_case(ctx, d):
   (rc2, ry), rmut = raw_mod.apply(raw_vars, c, x, mutable=mut_cols)
   ctx.check(close((c2, y), (rc2, ry)), 'boxed_vs_raw:linen.apply', lambda: dict(boxed=np.asarray(y).tolist(), raw=np.asarray(ry).tolist()))
   ctx.check(close(meta.unbox(mutated), rmut), 'boxed_vs_raw:linen.mutated', None)
-  # boxed module applied to raw variables and vice versa computes the same (boxing is metadata only)
+  # the raw programs never reach the Partitioned hooks
   ctx.check(not [e for e in LOG if e[0].startswith('linen.')], 'hook.linen:called_on_raw', lambda: dict(events=LOG[:3]))
   del LOG[:], SEEN[:]
 
@@ -879,7 +881,7 @@ def legacy_cases(ctx):
           nested.append((kinds, r, (k_in, k_out), 0))
   if quick:
     rng = ctx.rng('legacy', 'subset')
-    single, nested = rng.sample(single, min(len(single), 12)), rng.sample(nested, 6)
+    single, nested = rng.sample(single, min(len(single), 8)), rng.sample(nested, 4)
   return single + nested
 
 
